@@ -84,6 +84,23 @@ def selection(ctx: Ctx, h: Harness):
         ctx.decide(bad is None, "R8.sel", site, "", bad or "", where=where(fi, fi.node))
     except Unsupported as e:
         ctx.unknown("R8.sel", site, str(e))
+    # a calibrator that applies but cannot calibrate the value fails the parse: no silent fall-through to the default / raw value
+    for where_, src in (
+            ("matching context", f"IntegerDataEncoding(8, 'unsigned', default_calibrator={_poly(500.0)}, context_calibrators=[calibrators.ContextCalibrator("
+                                 f"[comparisons.Comparison('1', 'M0')], calibrators.SplineCalibrator([calibrators.SplinePoint(40, 1.0), "
+                                 f"calibrators.SplinePoint(50, 2.0)], order=1, extrapolate=False))]).parse_value(pkt)"),
+            ("default", "IntegerDataEncoding(8, 'unsigned', default_calibrator=calibrators.SplineCalibrator([calibrators.SplinePoint(40, 1.0), "
+                        "calibrators.SplinePoint(50, 2.0)], order=0, extrapolate=False)).parse_value(pkt)")):
+        site = f"{fi.key}::{where_} spline cannot calibrate (raw outside its points, no extrapolation)"
+        try:
+            pkt = h.packet(bytes([raw]), {"M0": h.val("Int", 1)})
+            kind, got = h.outcome(src, ENC, pkt=pkt)
+            ctx.decide(kind == "raise" and got == "CalibrationError", "R8.sel", site, "CalibrationError",
+                       f"raw {raw} lies outside the points (40..50) of the {where_} spline calibrator, extrapolation off: "
+                       f"{'raises ' + str(got) if kind != 'ok' else 'result ' + repr(got)}; XTCE / the library contract: a calibration error",
+                       where=where(fi, fi.node))
+        except Unsupported as e:
+            ctx.unknown("R8.sel", site, str(e))
     # the criteria of a context calibrator may reference the value being parsed (own raw value)
     site = f"{fi.key}::self-reference"
     try:
@@ -275,6 +292,23 @@ def declared_spline(ctx: Ctx):
         ctx.decide(bad is None, "R8.spline", site, "", bad or "", where=where(fi, fi.node))
 
 
+    # the extrapolate attribute is an xs:boolean: true | false | 1 | 0 (absent = false)
+    for attr, extrap in ((None, False), ("true", True), ("false", False), ("1", True), ("0", False)):
+        site = f"{CAL}::SplineCalibrator.from_xml::extrapolate={attr!r}"
+        a = {"order": "1"}
+        if attr is not None:
+            a["extrapolate"] = attr
+        el = make_elem("SplineCalibrator", a, children=[make_elem("SplinePoint", {"raw": str(r), "calibrated": str(c)}) for r, c in pts])
+        try:
+            k, got = hx.outcome("calibrators.SplineCalibrator.from_xml(el).calibrate(q)", "xtce/encodings.py", el=el, q=400)
+            ok = (k == "ok" and abs(got - 150.0) < 1e-9) if extrap else (k == "raise" and got == "CalibrationError")
+            ctx.decide(ok, "R8.spline", site, "", f"<SplineCalibrator extrapolate={attr!r}>: calibrate(400) beyond the last point (300) "
+                       f"{'raises ' + str(got) if k != 'ok' else 'gives ' + repr(got)}; the document "
+                       f"{'enables extrapolation (150.0)' if extrap else 'does not enable extrapolation (CalibrationError)'}", where=where(fi, fi.node))
+        except Unsupported as e:
+            ctx.unknown("R8.spline", site, str(e))
+
+
 def _spline_expected(xs, ys, q, order, extrapolate):
     if q < xs[0] or q > xs[-1]:
         if not extrapolate:
@@ -410,7 +444,8 @@ SPEC = PropSpec(
                  "checker's own closed forms. Plus effect analysis: calibrators are stateless. Does not decide "
                  "floating-point rounding of calibration results."
                  ' Polynomials and enumerations are also evaluated as declared in a document (repeated exponents summed; enumeration values beyond 2**53, zero, all-ones).'
-                 ' Splines are also evaluated as declared in a document with <SplinePoint> attributes in any order; listed enumeration values with empty or false-looking labels, and negative values on every signed spelling, map to their labels; R8.e2: the second end-to-end document of C01, also with DEBUG logging switched on.'),
+                 ' Splines are also evaluated as declared in a document with <SplinePoint> attributes in any order; listed enumeration values with empty or false-looking labels, and negative values on every signed spelling, map to their labels; R8.e2: the second end-to-end document of C01, also with DEBUG logging switched on.'
+                 ' R8.e3: the hand-written document of R1.e3 (contexts with different numbers of comparisons: the first in document order that tests true wins; time encodings: scale*raw + offset).'),
     rule_doc="one obligation per family/configuration; each covers all its ordering classes / match subsets",
     assumptions=["CPython float arithmetic (executed natively on extracted expressions)",
                  "criteria evaluation is correct (C06)", "the raw integer read is correct (C03/C04)"],
